@@ -177,7 +177,7 @@ func c07StateMachine(p *core.Prog, r *core.Report, locks *core.Locks, sp stateSp
 				why = "start-close needs no drain predicate"
 			case nv&(closed|inClosed) != 0:
 				// mixed value (phi): check each origin
-				drainOK, why = drainOrigins(sp, store, d, closed, inClosed, here)
+				drainOK, why = drainOrigins(p, sp, store, d, closed, inClosed, here, ctx)
 			default:
 				why = "no drain predicate required for " + d.String(nv)
 			}
@@ -268,54 +268,129 @@ func drainToClosed(sp stateSpec, f facts, prior, inClosed core.Set, store *ssa.S
 
 // drainOrigins: the stored value is a phi of constants; each constant origin
 // must be guarded by the drain predicate of its target state.
-func drainOrigins(sp stateSpec, store *ssa.Store, d *core.Domain, closed, inClosed core.Set, here facts) (bool, string) {
-	phi, ok := store.Val.(*ssa.Phi)
-	if !ok {
-		return false, "mixed target state that is not a phi of guarded constants: " + desc(store.Val)
-	}
+func drainOrigins(p *core.Prog, sp stateSpec, store *ssa.Store, d *core.Domain, closed, inClosed core.Set, here facts, ctx core.Ctx) (bool, string) {
 	okAll := true
 	why := ""
-	seen := map[*ssa.Phi]bool{}
-	var walk func(ph *ssa.Phi)
-	walk = func(ph *ssa.Phi) {
-		if seen[ph] {
-			return
+	n := 0
+	judge := func(k int64, f facts) {
+		n++
+		s := d.Of(k)
+		var ok bool
+		var w string
+		switch {
+		case s == inClosed:
+			ok, w = drainToInboundClosed(sp, f, store, d)
+			// channel: InboundClosed only from StartClose is checked by R1
+		case s == closed:
+			ok, w = drainToClosed(sp, f, 0, inClosed, store, d)
+		default:
+			ok, w = true, ""
 		}
-		seen[ph] = true
-		for i, e := range ph.Edges {
-			pred := ph.Block().Preds[i]
-			switch ev := e.(type) {
-			case *ssa.Phi:
-				walk(ev)
-			case *ssa.Const:
-				k, _ := core.ConstInt(ev)
-				s := d.Of(k)
-				f := factsAt(pred).add(edgeFacts(pred, ph.Block()))
-				var ok bool
-				var w string
-				switch {
-				case s == inClosed:
-					ok, w = drainToInboundClosed(sp, f, store, d)
-					// channel: InboundClosed only from StartClose is checked by R1
-				case s == closed:
-					ok, w = drainToClosed(sp, f, 0, inClosed, store, d)
-				default:
-					ok, w = true, ""
-				}
-				if !ok {
-					okAll = false
-				}
-				if w != "" {
-					why += w + "; "
-				}
-			default:
-				okAll = false
-				why += "non-constant origin " + desc(e) + "; "
-			}
+		if !ok {
+			okAll = false
+		}
+		if w != "" {
+			why += w + "; "
 		}
 	}
-	walk(phi)
+	// The origins of the stored value: constants reached through phis, through
+	// the parameters of the storing helper (to the argument at the call site of
+	// this context) and through the results of helpers that compute the target
+	// state (into their returns, with the helper's parameters replaced by the
+	// arguments of the call, so that a guard on a parameter is a guard on the
+	// value the caller passed).
+	seen := map[ssa.Value]bool{}
+	var collect func(v ssa.Value, base facts, sub map[ssa.Value]ssa.Value, depth int)
+	collect = func(v ssa.Value, base facts, sub map[ssa.Value]ssa.Value, depth int) {
+		if depth > 4 {
+			okAll = false
+			why += "origin too deep: " + desc(v) + "; "
+			return
+		}
+		switch x := v.(type) {
+		case *ssa.Const:
+			k, _ := core.ConstInt(x)
+			judge(k, base)
+		case *ssa.Phi:
+			if seen[x] {
+				return
+			}
+			seen[x] = true
+			for i, e := range x.Edges {
+				pred := x.Block().Preds[i]
+				f := base.add(substFacts(factsAt(pred).add(edgeFacts(pred, x.Block())), sub))
+				collect(e, f, sub, depth)
+			}
+		case *ssa.Parameter:
+			site, ok := ctx[x.Parent()]
+			idx := -1
+			for k, q := range x.Parent().Params {
+				if q == x {
+					idx = k
+				}
+			}
+			if !ok || idx < 0 || site.Common().IsInvoke() || idx >= len(site.Common().Args) {
+				okAll = false
+				why += "non-constant origin " + desc(v) + "; "
+				return
+			}
+			collect(site.Common().Args[idx], base.add(factsAt(site.Block())), nil, depth+1)
+		case *ssa.Call:
+			g := x.Call.StaticCallee()
+			if g == nil || g.Blocks == nil || !p.InAnalysed(g) || g.Signature.Results().Len() != 1 || len(g.Params) != len(x.Call.Args) {
+				okAll = false
+				why += "non-constant origin " + desc(v) + "; "
+				return
+			}
+			sub2 := map[ssa.Value]ssa.Value{}
+			for k, q := range g.Params {
+				a := x.Call.Args[k]
+				if r, isSub := sub[a]; isSub {
+					a = r
+				}
+				sub2[q] = a
+			}
+			core.EachInstr(g, func(i ssa.Instruction) {
+				if ret, isRet := i.(*ssa.Return); isRet {
+					collect(core.ReturnValues(ret)[0], base.add(substFacts(factsAt(ret.Block()), sub2)), sub2, depth+1)
+				}
+			})
+		default:
+			okAll = false
+			why += "non-constant origin " + desc(v) + "; "
+		}
+	}
+	if _, isConst := store.Val.(*ssa.Const); isConst {
+		return false, "mixed target state that is a single constant: " + desc(store.Val)
+	}
+	collect(store.Val, facts{}, nil, 0)
+	if n == 0 && okAll {
+		return false, "mixed target state without a constant origin: " + desc(store.Val)
+	}
 	return okAll, why
+}
+
+// substFacts: the facts with a helper's parameters replaced by the arguments of the call.
+func substFacts(f facts, sub map[ssa.Value]ssa.Value) facts {
+	if len(sub) == 0 {
+		return f
+	}
+	rep := func(v ssa.Value) ssa.Value {
+		if r, ok := sub[v]; ok {
+			return r
+		}
+		return v
+	}
+	var out facts
+	for _, c := range f.cmps {
+		c.X, c.Y = rep(c.X), rep(c.Y)
+		out.cmps = append(out.cmps, c)
+	}
+	for _, b := range f.bools {
+		b.V = rep(b.V)
+		out.bools = append(out.bools, b)
+	}
+	return out
 }
 
 // edgeFacts: facts established by the branch at the end of pred when it jumps to succ.
@@ -482,6 +557,38 @@ func stateFlagOnlyAfterStore(x ssa.Value, stFld *types.Var, d *core.Domain) (boo
 	seen := map[*ssa.Phi]bool{}
 	bad := ""
 	var walk func(ph *ssa.Phi)
+	helpers := map[*ssa.Function]bool{}
+	fromHelper := func(g *ssa.Function) bool {
+		if helpers[g] {
+			return true // in progress or done
+		}
+		helpers[g] = true
+		ok := true
+		core.EachInstr(g, func(i ssa.Instruction) {
+			ret, isRet := i.(*ssa.Return)
+			if !isRet {
+				return
+			}
+			rv := core.ReturnValues(ret)[0]
+			if k, isK := core.ConstInt(rv); isK && d.Of(k)&d.Declared() == 0 {
+				return
+			}
+			if rp, isPhi := rv.(*ssa.Phi); isPhi {
+				walk(rp)
+				return
+			}
+			stored := false
+			for _, ins := range ret.Block().Instrs {
+				if st, isSt := ins.(*ssa.Store); isSt && core.AddrField(st.Addr) == stFld && st.Val == rv {
+					stored = true
+				}
+			}
+			if !stored {
+				ok = false
+			}
+		})
+		return ok
+	}
 	walk = func(ph *ssa.Phi) {
 		if seen[ph] {
 			return
@@ -507,6 +614,13 @@ func stateFlagOnlyAfterStore(x ssa.Value, stFld *types.Var, d *core.Domain) (boo
 			if inner, isPhi := e.(*ssa.Phi); isPhi && inner.Comment == ph.Comment {
 				walk(inner)
 				continue
+			}
+			// the flag is what a helper returns: every return of the helper
+			// carries zero or the value the helper itself stored
+			if c, isCall := e.(*ssa.Call); isCall {
+				if g := c.Call.StaticCallee(); g != nil && g.Blocks != nil && g.Signature.Results().Len() == 1 && fromHelper(g) {
+					continue
+				}
 			}
 			bad = "flag takes a state value on an edge that did not store it: " + desc(e)
 		}
